@@ -73,6 +73,7 @@ pub fn run(ctx: &Ctx) {
         ctx.require_class(&format!("l0/{}/{}", sweep, f.name), 1000);
     }
     crate::l1::run_forms(ctx, crate::l1::FormSet::Logic);
+    crate::l3fam::run(ctx, crate::l3fam::Fam::Set(crate::l1::FormSet::Logic), ctx.tier.pick(320usize, 6000usize));
     if ctx.tier == Tier::Thorough {
         crate::fuzzrun::exec_campaign(ctx, &["and", "or", "xor", "test", "not", "sal", "shl", "sar", "shr", "rol", "ror", "rcl", "rcr"], &[]);
     }
